@@ -73,25 +73,44 @@ Proof.
   destruct sd; try reflexivity. exfalso. eapply Hn. reflexivity.
 Qed.
 
-(* unsupported _sd_alg: both verification entry points reject, whatever else the token contains *)
+(* unsupported _sd_alg (the claim is present and is not the name of a supported algorithm - in particular when it
+   is not a string): both verification entry points reject, whatever else the token contains *)
+Lemma declared_halg_unsupported claims :
+  jhas "_sd_alg" claims = true -> (forall a, jget "_sd_alg" claims = JStr a -> parse_halg a = None) ->
+  declared_halg claims = None.
+Proof.
+  intros Hhas Ha. unfold declared_halg. rewrite Hhas.
+  destruct (jget "_sd_alg" claims) eqn:E; try reflexivity. cbn [jstr_or_empty]. apply Ha. reflexivity.
+Qed.
+
+Lemma declared_halg_str claims a : jget "_sd_alg" claims = JStr a -> declared_halg claims = parse_halg a.
+Proof.
+  unfold declared_halg, jhas, jget. destruct claims as [| | | | |kvs]; try discriminate.
+  destruct (obj_get "_sd_alg" kvs); [|discriminate]. intros ->. reflexivity.
+Qed.
+
+(* the default: a token without the claim is processed with sha-256 (repair F18) *)
+Lemma declared_halg_default claims : jhas "_sd_alg" claims = false -> declared_halg claims = Some SHA256.
+Proof. intros Hh. unfold declared_halg. rewrite Hh. reflexivity. Qed.
+
 Lemma verifier_bad_alg O token kbpol jwt ds kb hdr claims :
   sd_jwt_parts_m token = Val (jwt, ds, kb) -> o_jwt O jwt = Val (hdr, claims) ->
-  (forall a, jget "_sd_alg" claims = JStr a -> parse_halg a = None) ->
+  jhas "_sd_alg" claims = true -> (forall a, jget "_sd_alg" claims = JStr a -> parse_halg a = None) ->
   verifier_verify O token kbpol = Fail.
 Proof.
-  intros Hp Hj Ha. unfold verifier_verify, verifier_verify_raw. rewrite Hp. cbn [obind]. rewrite Hj. cbn [obind].
+  intros Hp Hj Hhas Ha. unfold verifier_verify, verifier_verify_raw. rewrite Hp. cbn [obind]. rewrite Hj. cbn [obind].
   destruct (is_null (jget "cnf" claims) && _); [reflexivity|].
   destruct (negb (is_null (jget "cnf" claims)) && _); [reflexivity|].
-  destruct (jget "_sd_alg" claims) eqn:E; try reflexivity. rewrite (Ha _ eq_refl). reflexivity.
+  rewrite (declared_halg_unsupported claims Hhas Ha). reflexivity.
 Qed.
 
 Lemma holder_bad_alg O token jwt ds hdr claims :
   sd_jwt_parts_m token = Val (jwt, ds, None) -> o_jwt O jwt = Val (hdr, claims) ->
-  (forall a, jget "_sd_alg" claims = JStr a -> parse_halg a = None) ->
+  jhas "_sd_alg" claims = true -> (forall a, jget "_sd_alg" claims = JStr a -> parse_halg a = None) ->
   holder_verify O token = Fail.
 Proof.
-  intros Hp Hj Ha. unfold holder_verify, holder_verify_raw. rewrite Hp. cbn [obind]. rewrite Hj. cbn [obind].
-  destruct (jget "_sd_alg" claims) eqn:E; try reflexivity. rewrite (Ha _ eq_refl). reflexivity.
+  intros Hp Hj Hhas Ha. unfold holder_verify, holder_verify_raw. rewrite Hp. cbn [obind]. rewrite Hj. cbn [obind].
+  rewrite (declared_halg_unsupported claims Hhas Ha). reflexivity.
 Qed.
 
 Lemma parse_halg_some a alg : parse_halg a = Some alg -> a = "sha-256" \/ a = "sha-384" \/ a = "sha-512".
